@@ -4,13 +4,13 @@ go 1.23
 
 require (
 	github.com/datastax/go-cassandra-native-protocol v0.0.0
+	github.com/rs/zerolog v1.20.0
 	pgregory.net/rapid v1.3.0
 )
 
 require (
 	github.com/golang/snappy v0.0.3 // indirect
 	github.com/pierrec/lz4/v4 v4.0.3 // indirect
-	github.com/rs/zerolog v1.20.0 // indirect
 )
 
 replace github.com/datastax/go-cassandra-native-protocol => /repo
